@@ -56,6 +56,8 @@ def _gen_kernel_case(rng, big):
     from harness import c02
     while True:
         prob = c02.gen_problem(rng, big=big)
+        if prob.get("var"):
+            prob["var"]["scale"] = 1        # the C kernel (C ints) is driven with the same problem
         n = len(prob["vr"])
         if n >= 2 and prob["w"] * prob["h"] >= 2 and not prob["ood"]:
             break
